@@ -86,6 +86,7 @@ def run(prog, rep, tier='quick', config='default'):
 
     # ------------------------------------------------------------------ R8d: nothing data-dependent is carried from one security to the next
     r8d(prog, rep, loops)
+    r8h(prog, rep, loops)
 
     # ------------------------------------------------------------------ R8f: every affiliate value comes out of the interning table
     AFF = 'portfolio::model::affiliate::Affiliate'
@@ -239,6 +240,50 @@ READS = {'get', 'values', 'keys', 'iter', 'len', 'is_empty', 'contains_key', 'co
 MUTS = {'insert', 'push', 'extend', 'append', 'push_str', 'remove', 'clear', 'entry', 'retain', 'drain', 'truncate', 'pop',
         'push_back', 'push_front', 'extend_from_slice'}
 CONTAINER = re.compile(r'std::collections::|std::vec::Vec<|std::string::String|VecDeque<')
+
+
+def r8h(prog, rep, loops):
+    """What a per-security loop computes for one security takes nothing from the rows of the others — not through a value derived,
+    before the loop, from the whole transaction list that the per-security map was split from (the set of all affiliates of the
+    portfolio, a count, a first / last date).  Inside the loop such a value may reach tracing only."""
+    TXSEQ = re.compile(r'(std::vec::Vec<|\[)(portfolio::model::tx::Tx|portfolio::model::tx::CsvTx)\b')
+    n = 0
+    for (fn, nc, header, body, why) in loops:
+        org = mir.provenance(fn, nc.args[0], follow_all_call_args=True)
+        chain = set(org.locals)
+        seeds = {l for l in chain if TXSEQ.search(fn.ty.get(l, '') or '') and not SECMAP.search(fn.ty.get(l, '') or '')}
+        # the whole list may also be borrowed before it is moved into the split: every user variable holding it counts
+        if not seeds:
+            continue
+        n += 1
+        tainted = mir.forward_taint(fn, seeds, stop=lambda c: c.dst['l'] in chain)
+        tainted -= chain
+        elem = {nc.dst['l']}
+        bad = None
+        for c in fn.calls:
+            if c.bb not in body or c is nc or is_tracing_call(c):
+                continue
+            hit = [a for a in c.arg_locals() if a in tainted and a not in elem]
+            if hit and not (c.dst_local() is not None and __import__('props.c09', fromlist=['x']).only_feeds_tracing(fn, c.dst_local())):
+                # tainted through the loop itself (the element is of course derived from the map)?  only values defined outside the body count
+                outside = [l for a in hit for l in ({a} | set(mir.provenance(fn, a).locals))
+                           if l in tainted and l not in elem and
+                           (fn.is_param(l) or (fn.defs.get(l) and all(bb not in body for (bb, _i, _k, _n) in fn.defs.get(l, []))))]
+                if outside:
+                    bad = (c, outside[0])
+                    break
+        names = sorted({short(c.decl) for c in fn.calls if c.bb in body and c is not nc and not is_tracing_call(c) and
+                        not re.match(r'(std|core|alloc)::', c.decl) and not re.match(r'<?(std|core|alloc)::', c.callee)})
+        k = '%s|loop[%s]|nothing-from-the-whole-transaction-list' % (fn.name, ','.join(names[:3]))
+        if bad:
+            c, l = bad
+            rep.violation('R8h', k, where=c.where(), fn=fn.name,
+                          detail='inside the per-security loop %s() receives %s, which was computed before the loop from the transactions of all '
+                                 'securities: what one security shows then depends on the rows of the others' % (short(c.callee), fn.describe_local(l)))
+        else:
+            rep.ok('R8h', k, where=nc.where(), fn=fn.name, detail='no value derived from the whole transaction list (other than the per-security split) is used in the loop')
+    if n == 0:
+        rep.violation('R8h', 'anchor-lost:split-loop', detail='anchor lost: the loop over the per-security split of the whole transaction list')
 
 
 def r8d(prog, rep, loops):
